@@ -76,7 +76,12 @@ def parse_terse(out):
     return res
 
 
-IGNORED_CHECK_PREFIXES = ("NaN on ", "attempt to compute simd_")   # simd_* "overflow": Kani applies its integer-overflow check to FLOAT vector adds/muls (stdarch _mm_add_ps); palette has no integer SIMD   # counted only where finiteness is the contract (asserted explicitly)
+IGNORED_CHECK_PREFIXES = ("NaN on ",)   # simd_* "overflow": Kani applies its integer-overflow check to FLOAT vector adds/muls (stdarch _mm_add_ps); palette has no integer SIMD   # counted only where finiteness is the contract (asserted explicitly)
+
+
+# Kani applies its integer-overflow check to FLOAT vector adds/muls (stdarch _mm_add_ps) and then assumes it away, which makes
+# everything after the operation unreachable: a harness reporting it is a tool limit (undecided), never a pass and never an alarm
+TOOL_LIMIT_PREFIXES = ("attempt to compute simd_",)
 
 
 def relevant_failures(failed_checks):
@@ -174,6 +179,10 @@ def run_property(prop, tier, jobs=12, harness_timeout=600, extra_args=(), select
         o.extra["checks"] = r["checks"][1] if r["checks"] else None
         cov = r["covers"]
         fails = relevant_failures(r["failed_checks"])
+        if any(c.startswith(TOOL_LIMIT_PREFIXES) for c in r["failed_checks"]):
+            o.status = UNDECIDED
+            o.detail = "verifier limit (float SIMD arithmetic is not modelled; stub the primitive): " + "; ".join(r["failed_checks"])
+            continue
         if r["status"] == "SUCCESSFUL" or (r["status"] == "FAILED" and not fails and r["failed_checks"]):
             # (a harness whose only failed checks are ignored NaN-class checks counts as passing)
             if cov is None or cov[0] != cov[1] or cov[1] == 0:
@@ -189,7 +198,20 @@ def run_property(prop, tier, jobs=12, harness_timeout=600, extra_args=(), select
             o.status = UNDECIDED
             o.detail = "Kani status %s" % r["status"]
     # phase 2: counterexamples for the failing harnesses, replayed natively on the real code
-    for h, o, fails in need_second:
+    # counterexample extraction re-runs a harness with concrete playback (sequential, minutes each): the cheapest failing
+    # harnesses go first and at most MAX_PLAYBACK are replayed; the others are still reported as failed obligations
+    need_second.sort(key=lambda t: t[1].time)
+    MAX_PLAYBACK = int(os.environ.get("VERIF_MAX_PLAYBACK", "4"))
+    for idx, (h, o, fails) in enumerate(need_second):
+        if idx >= MAX_PLAYBACK and not all(("unwinding assertion" in f) for f in fails):
+            if not any(x[1].status == FAILED and x[1].replay and not x[1].no_input for x in need_second[:idx]):
+                o.status = UNDECIDED
+                o.detail += " | counterexample not extracted and none of the replayed harnesses of this run reproduced natively (undecided)"
+                continue
+            o.status = FAILED; o.no_input = True
+            o.detail += " | counterexample not extracted for this harness (%d cheaper failing obligations of this run carry replayed inputs)" % MAX_PLAYBACK
+            o.replay = write_replay(prop, o, {"harness": h, "failed_checks": fails, "note": "Kani refuted this obligation; concrete playback was run only for the %d cheapest failing harnesses of this run" % MAX_PLAYBACK})
+            continue
         if any("unwinding assertion" in f for f in fails) and all(("unwinding assertion" in f) for f in fails):
             o.status = UNDECIDED
             o.detail = "unwinding bound of the harness exceeded (loop runs longer than the harness allows): " + "; ".join(fails)
